@@ -530,7 +530,7 @@ func (p Prop) exec(c *Case) (*result, error) {
 	if cs, ok := e.DB.Config.ConnPool.(*gorm.PreparedStmtDB); ok {
 		cs.Close()
 	}
-	deadline := time.Now().Add(400 * time.Millisecond)
+	deadline := time.Now().Add(5 * time.Second) // only spent when something is still open: closers outside the scheduler need real time, much of it on a loaded machine
 	for {
 		res.events = e.Drv.Events()
 		res.open = simdrv.CountOpen(res.events)
